@@ -68,13 +68,24 @@ def run(ck, rng, tier, prop="C01"):
             # for every kernel, threaded or not)
             scaling, kind = -1, "general"
             X[rng.randrange(n)][rng.randrange(m)] = (99999999.5, 99999998.6)[c - 4]
+        if c == 7:
+            # more variables than objects under range scaling (option 4), every admissible component
+            n, m, scaling, kind = rng.randint(3, 5), rng.randint(7, 9), 4, "general"
+            X = gen_data(rng, n, m, kind)
+        if c == 6:
+            # exactly uncorrelated, centred variables (a factorial-type design) with the dominant one in the middle
+            n, m, scaling, kind = 8, rng.randint(3, 5), 0, "general"
+            Qd, _ = np.linalg.qr(np.array([[rng.gauss(0, 1) for _ in range(m)] for _ in range(n)]))
+            Qd = Qd - Qd.mean(axis=0)
+            Qd, _ = np.linalg.qr(Qd)
+            X = (Qd * np.array(([2.0, 8.0, 4.0, 1.0, 3.0])[:m]) + np.array([rng.uniform(-3, 3) for _ in range(m)])).tolist()
         from props import c02
         Xc = c02.preprocess(np.array(X), scaling)
         rank = int(np.linalg.matrix_rank(Xc, tol=1e-8 * max(1.0, np.abs(Xc).max())))
         if rank < 1:
             continue
         npc = rng.choice((1, rank, rank, rng.randint(1, rank)))
-        if c < 4:
+        if c < 4 or c == 7:
             npc = rank
         nproc = rng.choice((1, 1, 2, 3, 5, 8, 16))
         if c in (4, 5):
